@@ -203,7 +203,7 @@ func (t *Transaction) Bulk(handle Handle, ops []Operation, ordered bool) ([]Resu
 		// run operation
 		switch op.Opcode {
 		case Insert:
-			res, err = t.insert(handle, oplog, namespace, op.Document)
+			res, err = t.insert(handle, oplog, namespace, bsonkit.Clone(op.Document))
 		case Replace:
 			res, err = t.replace(handle, oplog, namespace, op.Filter, op.Document, op.Sort, op.Upsert)
 		case Update:
@@ -410,6 +410,11 @@ func (t *Transaction) Replace(handle Handle, query, sort, repl bsonkit.Doc, upse
 }
 
 func (t *Transaction) replace(handle Handle, oplog, namespace *mongokit.Collection, query, repl, sort bsonkit.Doc, upsert bool) (*Result, error) {
+	// clone query, an upsert takes values from it
+	if upsert && query != nil {
+		query = bsonkit.Clone(query)
+	}
+
 	// replace document
 	res, err := namespace.Replace(query, repl, sort)
 	if err != nil {
@@ -508,6 +513,16 @@ func (t *Transaction) Update(handle Handle, query, sort, update bsonkit.Doc, ski
 }
 
 func (t *Transaction) update(handle Handle, oplog, namespace *mongokit.Collection, query, update, sort bsonkit.Doc, upsert bool, skip, limit int, arrayFilters bsonkit.List) (*Result, error) {
+	// clone update, the operators store values from it
+	if update != nil {
+		update = bsonkit.Clone(update)
+	}
+
+	// clone query, an upsert takes values from it
+	if upsert && query != nil {
+		query = bsonkit.Clone(query)
+	}
+
 	// perform update
 	res, err := namespace.Update(query, update, sort, skip, limit, arrayFilters)
 	if err != nil {
